@@ -35,6 +35,8 @@ CONSTANTS Sel,             \* "stateless" | "stateful" | "cv"
           NumFirst,        \* NumOfProviders of the first instruction (MaxParticipants in cv mode)
           Need,            \* successes HasRequiredNodeResults wants (1; agreement threshold in cv mode)
           MaxTicks, MaxSendErrs, MaxResults,   \* budgets of the environment
+          BuCap,           \* capacity of batchUpdate (= MaxRetries in the code; larger in trace validation, where a
+                           \* blocked UpdateBatch caller acts as one more slot)
           FixF22,          \* TRUE: model fixes/F22 (a SendRetry is skipped once the summary holds a non-retryable error)
           KindSet,         \* result kinds the environment may produce (subset of Kinds)
           GenHist
@@ -187,14 +189,14 @@ ConsTake ==
   /\ UNCHANGED <<pc, out, after, pol, bu, gr, rc, rd, rdv, nea, vals, batch, used, sig, sum, tout, ticks, nerrs, nres, obs>>
 
 SendOk ==
-  /\ cons = "sending" /\ Len(bu) < MaxRetries
+  /\ cons = "sending" /\ Len(bu) < BuCap
   /\ batch' = batch + 1 /\ used' = used + cur.n
   /\ bu' = Append(bu, "nil") /\ cons' = "idle"
   /\ H([a |-> "send_ok"])
   /\ UNCHANGED <<pc, out, after, pol, task, gr, rc, rd, rdv, nea, vals, cur, sig, sum, tout, ticks, nerrs, nres, obs>>
 
 SendErr(e) ==
-  /\ cons = "sending" /\ Len(bu) < MaxRetries /\ nerrs < MaxSendErrs
+  /\ cons = "sending" /\ Len(bu) < BuCap /\ nerrs < MaxSendErrs
   /\ nerrs' = nerrs + 1
   /\ bu' = Append(bu, e) /\ cons' = "idle"
   /\ H([a |-> "send_err", e |-> e])
@@ -241,7 +243,7 @@ Emit == (pc # "stopped" /\ Len(hist) < MaxHist) \/ PrintT(<<"BEH", ToJson(hist)>
 \* ------------------------------------------------------------------ properties (C34)
 TypeOK ==
   /\ pc \in {"emit", "select", "stopped"} /\ Len(task) <= 1 /\ Len(gr) <= 1 /\ Len(rc) <= 1
-  /\ Len(bu) <= MaxRetries /\ rd \in {"wait", "check", "push", "none"}
+  /\ Len(bu) <= BuCap /\ rd \in {"wait", "check", "push", "none"}
   /\ used >= 0 /\ sig >= 0
 
 \* exactly one final instruction, and it is the last thing the machine does
